@@ -220,16 +220,16 @@ func runC04(e *sim.Env) {
 				err = s.cm.AddBlocks(blocksOf(batch))
 			}
 		}
-		// lock-yield flavour, 1 submission in 3: subscribers poll while the
+		// lock-yield flavour, 1 submission in 2: subscribers poll while the
 		// submission (and its reorg) is in progress; the seeded scheduler decides
 		// every Lock / Unlock of the manager
 		var cps []*concurrentPoll
 		// ... and, in 1 of 2 of those, another goroutine registers and cancels
 		// short-lived listeners meanwhile
 		churn := 0
-		if (sim.LockYields || sim.RaceBuild) && len(subs) > 0 && e.Chance(1, 3) {
+		if (sim.LockYields || sim.RaceBuild) && len(subs) > 0 && e.Chance(1, 2) {
 			for _, sub := range subs {
-				if len(cps) < 3 && e.Chance(1, 2) {
+				if len(cps) < 3 && e.Chance(2, 3) {
 					cps = append(cps, &concurrentPoll{sub: sub, start: sub.sh.idx, max: e.Range(1, 8), delay: e.Range(0, 10)})
 				}
 			}
@@ -368,7 +368,7 @@ func runC04(e *sim.Env) {
 
 func init() {
 	register(&Prop{
-		ID: "C04", Run: runC04, Race: true, Flavour: "instrumented", Quick: 900, Thorough: 25000, Level: "exploration",
+		ID: "C04", Run: runC04, Race: true, Flavour: "instrumented", Quick: 1600, Thorough: 25000, Level: "exploration",
 		Rule:        "one run = C02-style history with 1-6 subscribers that start from nothing or from a snapshot of any index a subscriber reached before (including indices on branches that are stale by now), poll UpdatesSince with chunk sizes 1-8 at drawn moments between submissions and fold the returned diffs and proof updates into a shadow ledger; every poll is checked for the chunk bound and for contiguity (reverts walk back block by block off the best chain, applies walk forward on it); whenever a subscriber has caught up its shadow ledger must equal the reference ledger (elements, leaf indices, proofs, chain index elements) and verify against the accumulator; in the lock-yield flavour 1 submission in 3 runs concurrently with up to 3 UpdatesSince calls under the seeded lock-level scheduler (no error, chunk bound, contiguity, path ends on the best chain before or after the submission; the folded ledger is compared as usual once the subscriber has caught up); two OnReorg listeners (one calling back into the manager, one cancelled at a drawn moment) must be called exactly when the tip changed; distinct = abstract trace; non-trivial = a reorg that reverts blocks",
 		Real:        []string{"chain.Manager (UpdatesSince, OnReorg)", "chain.DBStore"},
 		Stub:        []string{"disk: simdisk.DB"},
